@@ -26,11 +26,11 @@ D(i, k, j) == [id |-> i, k |-> k, j |-> j]
 DefectsQuick == {D(1, "fdt", 0), D(2, "width", 0), D(3, "alilen", 1), D(4, "alilen", 2), D(5, "alishort", 0),
                  D(6, "alidt", "i32"), D(7, "alidt", "f32"), D(8, "refdt", "i32"), D(9, "refdt", "f32"),
                  D(10, "half_s", 0), D(11, "half_e", 0), D(12, "s_gt_e", 0), D(13, "e_over", 1),
-                 D(14, "e_over", 2), D(15, "s_gt_T", 1), D(16, "mixed", 0)}
+                 D(14, "e_over", 2), D(15, "s_gt_T", 1), D(16, "mixed", 0), D(27, "short_over", 1)}
 DefectsThorough == DefectsQuick \cup
                 {D(17, "fnd", 0), D(18, "alilen", 3), D(19, "alidt", "u8"), D(20, "alidt", "i8"),
                  D(22, "alind", 0), D(23, "refdt", "i8"), D(24, "e_over", 3),
-                 D(25, "s_gt_T", 2), D(26, "cols", 0)}
+                 D(25, "s_gt_T", 2), D(26, "cols", 0), D(28, "short_over", 2)}
 
 \* histories: strict / fix k / strict on the same directory; a fix after a (possibly failed) fix
 PlansQuick == {<<None, 0, None>>, <<None, 1, None>>, <<None, 2, None>>, <<0, 2>>, <<1, 1>>}
